@@ -19,11 +19,11 @@ EXTENDS Integers, Sequences, FiniteSets, TLC
 
 CONSTANTS
   RestoresOp,        \* normative TRUE: the caller's operation value is as before when Submit returns.
-                     \*   FALSE = as-built D40: op.Params/op.Reader stay replaced by the wrappers (they pile up on reuse)
+                     \*   FALSE = as-built D50: op.Params/op.Reader stay replaced by the wrappers (they pile up on reuse)
   ClientStatusRule,  \* normative TRUE: OpenTelemetry span status is Error for every status >= 400 (httpconv.ClientStatus).
-                     \*   FALSE = as-built D41: httpconv.ServerStatus leaves 4xx Unset
+                     \*   FALSE = as-built D51: httpconv.ServerStatus leaves 4xx Unset
   CopiesOpts,        \* normative TRUE: span.kind is appended to a private copy of the start options.
-                     \*   FALSE = as-built D42: append(t.opts, kind) writes into the shared backing array when it has spare capacity
+                     \*   FALSE = as-built D52: append(t.opts, kind) writes into the shared backing array when it has spare capacity
   SharedSpanVar,     \* mutant only (never as-built): the span lives in a field of the transport instead of a local of Submit
   MaxCalls,          \* Submits of the same operation value per caller
   Statuses,          \* HTTP status codes the server may answer
